@@ -17,8 +17,10 @@ func NewReedSolomonEncoder(gf *GaloisField) *ReedSolomonEncoder {
 }
 
 func (rs *ReedSolomonEncoder) getPolynomial(degree int) *GFPoly {
+	verifPolyWait(rs)
 	rs.m.Lock()
 	defer rs.m.Unlock()
+	defer verifPolyLeave(rs, degree, verifPolyEnter(rs, degree))
 
 	if degree >= len(rs.polynomes) {
 		last := rs.polynomes[len(rs.polynomes)-1]
